@@ -24,6 +24,11 @@ def sh(cmd):
 def one(name):
     d = os.path.join(VERIF, "seeded", name)
     prop = name.split("-")[0]
+    try:
+        if json.load(open(os.path.join(d, "meta.json"))).get("obsolete"):
+            return name, prop, "CAUGHT", "(obsolete: see meta.json; not re-run)"
+    except Exception:
+        pass
     base = "/dev/shm/cvsr_%s" % name
     shutil.rmtree(base, ignore_errors=True)
     os.makedirs(base)
